@@ -9,6 +9,8 @@ KEYS = [
     'parso.tree.BaseNode.get_first_leaf', 'parso.tree.BaseNode.get_last_leaf', 'parso.tree.NodeOrLeaf.search_ancestor',
     'parso.tree.BaseNode.get_leaf_for_position', 'parso.tree.BaseNode.get_leaf_for_position.binary_search',
     'parso.python.tree.PythonMixin.get_name_of_position',
+    # parent links set by the constructors (with their frame: nobody else is re-parented)
+    'parso.tree.BaseNode.__init__', 'parso.python.tree.Param.__init__',
 ]
 
 
